@@ -248,6 +248,36 @@ def c14_prop():
             "assumptions": []}
 
 
+LIFE = "verif::life::proofs"
+ONESHOT = "channel::oneshot::verif_oneshot::proofs"
+ONESHOT_BC = "channel::oneshot_broadcast::verif_oneshot_bc::proofs"
+
+
+def c11_prop():
+    quick = [
+        H(LIFE, "life_oneshot_bc_n3", "hold", replay=("life_oneshot_bc", 0), mask=P(11), est_s=140,
+          bounds="E-HIST lifecycle, shared oneshot-broadcast: 1 sender + up to 2 receiver handles, 3 clone/drop operations, "
+                 "closedness observed through a registered receive future that outlives the handles"),
+        H(LIFE, "life_oneshot_n3", "hold", replay=("life_oneshot", 0), mask=P(11), est_s=120,
+          bounds="E-HIST lifecycle, shared oneshot: 1 sender + 1 receiver handle, up to 3 drop operations"),
+        H(LIFE, "life_witness_oneshot_bc_n3", "witness", replay=("life_oneshot_bc", 0), mask=PALL, witness_bit=5, est_s=200,
+          bounds="witness twin: a non-last receiver handle is dropped, later the last one"),
+    ]
+    thorough = quick + [
+        H(LIFE, "life_oneshot_bc_n4", "hold", replay=("life_oneshot_bc", 0), mask=P(11), est_s=400, timeout=3000, bounds="lifecycle oneshot-broadcast, 4 operations"),
+        H(LIFE, "life_oneshot_bc_n4_check", "hold", replay=("life_oneshot_bc_check", 0), mask=P(11), est_s=400, timeout=3000,
+          bounds="lifecycle oneshot-broadcast, 4 operations, MutexType=CheckLock"),
+        H(LIFE, "life_oneshot_bc_n6", "hold", replay=("life_oneshot_bc", 0), mask=P(11), est_s=2000, timeout=3400, bonus=True, bounds="lifecycle oneshot-broadcast, 6 operations (bonus)"),
+    ]
+    return {"quick": quick, "thorough": thorough,
+            "functions": ["<GenericOneshotBroadcastReceiver as Clone>::clone", "<GenericOneshotBroadcastReceiver as Drop>::drop",
+                          "<GenericOneshotBroadcastSender as Drop>::drop", "<GenericOneshotSender as Drop>::drop", "<GenericOneshotReceiver as Drop>::drop",
+                          "ChannelState::close", "ChannelState::try_receive", "shared::ChannelReceiveFuture::poll"],
+            "instantiations": ["shared oneshot / oneshot-broadcast over NoopLock (CheckLock in thorough), T = Tag"],
+            "bounds": {"handles": "2 sender + 2 receiver slots", "N_ops": "3 (4, 6 bonus in thorough)"},
+            "assumptions": ["handle counters are modelled sequentially (no weak-memory effects)"]}
+
+
 def _c16(prop, tier, seed):
     import os, sys
     sys.path.insert(0, os.path.join(os.path.dirname(os.path.abspath(__file__)), "c16"))
@@ -256,6 +286,7 @@ def _c16(prop, tier, seed):
 
 
 CUSTOM = {"C16": _c16}
+PROPS["C11"] = c11_prop()
 PROPS["C14"] = c14_prop()
 PROPS["C19"] = c19_prop()
 PROPS["C20"] = c20_prop()
@@ -377,6 +408,18 @@ def decode_event(cfg, script):
     return out
 
 
+def decode_life(cfg, script):
+    out = ["channel created: sender #0, receiver #0; a receive future is registered (pending) as observer"]
+    it = iter(script)
+    for op in it:
+        j = next(it, 0)
+        out.append(["clone a sender handle into slot #%d", "clone a receiver handle into slot #%d",
+                    "drop sender handle #%d", "drop receiver handle #%d"][op % 4] % j + "; re-poll the observer")
+    return out
+
+
+for _n in ("life_mpmc", "life_oneshot", "life_oneshot_bc", "life_state", "life_mpmc_check", "life_oneshot_bc_check", "life_state_check"):
+    DECODERS[_n] = decode_life
 DECODERS.update({"event_hist_noop": decode_event, "event_hist_check": decode_event})
 
 
